@@ -72,11 +72,26 @@ clean() {
     done
 }
 
+unit() {
+    U="$OUT/unit"; mkdir -p "$U/simrt/atomic"
+    cp "$VERIF"/simrt/*.go "$U/simrt/" && cp "$VERIF"/simrt/atomic/*.go "$U/simrt/atomic/"
+    printf 'module github.com/jsightapi/jsight-schema-core\n\ngo 1.18\n' > "$U/go.mod"
+    printf 'package simrt\n' > "$U/simrt/sites_gen.go"
+    for flags in "" "-race"; do
+        if (cd "$U" && go test $flags -count=1 ./simrt/ >"$OUT/unit$flags.log" 2>&1); then
+            echo "unit: simrt tests OK (go test $flags)"
+        else
+            echo "unit: simrt tests FAILED (go test $flags)"; tail -15 "$OUT/unit$flags.log"; fail=1
+        fi
+    done
+}
+
 case "$what" in
+    unit) unit ;;
     determinism) determinism ;;
     mutants) mutants ;;
     clean) clean ;;
-    all) determinism; clean; mutants ;;
-    *) echo "usage: selftest/run.sh [determinism|mutants|clean|all]"; exit 2 ;;
+    all) unit; determinism; clean; mutants ;;
+    *) echo "usage: selftest/run.sh [unit|determinism|mutants|clean|all]"; exit 2 ;;
 esac
 exit $fail
